@@ -101,10 +101,11 @@ Print Assumptions C16_compile_correct_straightline.
 
 (* ---------- statements with control flow are compiled correctly ---------- *)
 (* Fragment psfrag: a top-level sequence of declarations `x := e` and of
-   statements built from assignments `x = e` to globals, `if c … [else …] end`
-   (one condition; no else-if) and `while c … end`, arbitrarily nested, all
-   expressions in efrag (_partial: no else-if chains, break, for loops,
-   block-local declarations, arrays/maps).  The semantics exec_l is a
+   statements built from assignments `x = e` to globals, `if c … {else if c …}
+   [else …] end` chains, `while c … end` and `break` (inside a while only:
+   nb_stmt), arbitrarily nested, all expressions in efrag (_partial: no for
+   loops, block-local declarations, arrays/maps).  The boolean of a result of
+   exec_l says that a break is under way; a while loop ends it.  The semantics exec_l is a
    fuel-indexed big-step semantics defined in CompileSemProofs.v on top of
    eval_expr (IEEE primitive floats); a while loop consumes fuel per iteration.
    For every such program: if the compiler succeeds and the semantics is
@@ -112,11 +113,16 @@ Print Assumptions C16_compile_correct_straightline.
    the VM model started by NewVM on the compiled program runs to the end of
    the code, halts there with an empty operand stack, and every global slot
    holds the value the semantics gives that variable.  Proof: the compiler's
-   byte-level back-patching is shown to produce the layout LAY (lay_all), and
-   the simulation sim_all goes by induction on the fuel, re-entering a loop at
-   its start pc after the back jump. *)
+   byte-level back-patching is shown to produce the layout LAY (lay_all; for a
+   chain: the code with pending end jumps, LAYC false, is turned into the
+   final one by the patching of compileIfStatement, layc_patch), and the
+   simulation sim_all goes by induction on the fuel, re-entering a loop at
+   its start pc after the back jump, leaving a chain through the end jump
+   of the block that ran, and following a break jump to the end of its loop
+   (lay_brk_patch: compileWhileStatement's patching of c.breaks gives every
+   pending break jump of the body that target and changes nothing else). *)
 Theorem C16_compile_correct_ctl_partial : forall (p : slist) (st : cstate) (fuel : nat) (env' : genv),
-  psfrag p = true -> compile p = COk st -> exec_l fuel p (fun _ => None) = Some env' ->
+  psfrag p = true -> compile p = COk st -> exec_l fuel p (fun _ => None) = Some (env', false) ->
   (ldepth p <= Gen.Opcodes.StackSize)%N ->
   let prog := program_of (bytecode_of st) in
   exists s, reaches prog (vm_init prog) s /\
@@ -207,6 +213,33 @@ Proof.
 Qed.
 Print Assumptions C16_compile_vm_safe_ctl_partial.
 
+(* ---------- regression lemmas for the repaired VM divergences ---------- *)
+(* 8c3c11e: `a[1.5] = 9` used to store at index 1 (int() truncation); it is ErrIndexValue now *)
+Theorem C16_vm_fractional_index_write_before_fix :
+  let args := [VNum (PrimFloat.div (float_of_Z 3) (float_of_Z 2)); VArr [VNum (float_of_Z 1); VNum (float_of_Z 2); VNum (float_of_Z 3)]; VNum (float_of_Z 9)] in
+  set_index_check_before_fix args = None /\ set_index_check args = Some (PErr EIndexValue).
+Proof. vm_compute. split; reflexivity. Qed.
+Print Assumptions C16_vm_fractional_index_write_before_fix.
+
+(* 6a7e6f1: `"äb"[0]` used to be the byte "\xc3"; it is the character "ä" now *)
+Theorem C16_vm_byte_strings_before_fix :
+  index_value_before_fix (VStr [195; 164; 98]%N) (VNum (float_of_Z 0)) = POk (VStr [195]%N) /\
+  index_value (VStr [195; 164; 98]%N) (VNum (float_of_Z 0)) = POk (VStr [195; 164]%N) /\
+  utf8_decode [195; 164; 98]%N = [228; 98]%N.
+Proof. vm_compute. repeat split; reflexivity. Qed.
+Print Assumptions C16_vm_byte_strings_before_fix.
+
+(* fc6a6b3: a step range with step 0 used to run zero times (OpStepRange pushed
+   `false`); OpStepRange returns ErrRangeValue now *)
+Theorem C16_vm_zero_step_before_fix :
+  let stk := [VNum (float_of_Z 1); VNum (float_of_Z 0); VNum (float_of_Z 5)] in
+  (exists rest, step_range 0 stk = Some (VBool false :: rest)) /\
+  forall p, exec p {| ip := 0%N; ostack := stk; locals := []; globals := [] |} StepRange 0%N 3%N = Failed ERangeValue.
+Proof. split; [eexists; vm_compute; reflexivity|intro p; vm_compute; reflexivity]. Qed.
+Print Assumptions C16_vm_zero_step_before_fix.
+(* (66b6227, repetition deep copy: this model has value semantics for arrays, the
+   old sharing cannot be expressed in it; the class is guarded by the harness) *)
+
 (* ---------- non-vacuity ---------- *)
 Definition ex_ctl : slist :=
   SCons (SDecl (s_ "x") (ENum (float_of_Z 0)))
@@ -237,8 +270,8 @@ Definition ex_sem : slist :=
 Example C16_ex_sem_defined :
   psfrag ex_sem = true /\ (ldepth ex_sem <= Gen.Opcodes.StackSize)%N /\
   match exec_l 40 ex_sem (fun _ => None) with
-  | Some env => env (s_ "x") = Some (VNum (float_of_Z 5)) /\ env (s_ "t") = Some (VNum (float_of_Z 7))
-  | None => False
+  | Some (env, false) => env (s_ "x") = Some (VNum (float_of_Z 5)) /\ env (s_ "t") = Some (VNum (float_of_Z 7))
+  | _ => False
   end /\
   match compile ex_sem with
   | COk st => match vm_run 2000 (program_of (bytecode_of st)) (vm_init (program_of (bytecode_of st))) with
@@ -248,6 +281,70 @@ Example C16_ex_sem_defined :
   | CErr _ => False
   end.
 Proof. vm_compute. repeat split; try reflexivity. discriminate. Qed.
+
+(* x := 0; t := 0; while x < 6: x = x + 1
+     if x == 1: t = t + 10 else if x == 2: t = t + 100 else if x == 3: t = t + 1000 else t = t + 1 end end *)
+Definition ex_elif : slist :=
+  let xeq k := EBin BEq TNum TNum (EVar (s_ "x")) (ENum (float_of_Z k)) in
+  let tadd k := SCons (SAssign (EVar (s_ "t")) (EBin BPlus TNum TNum (EVar (s_ "t")) (ENum (float_of_Z k)))) SNil in
+  SCons (SDecl (s_ "x") (ENum (float_of_Z 0)))
+ (SCons (SDecl (s_ "t") (ENum (float_of_Z 0)))
+ (SCons (SWhile (EBin BLt TNum TNum (EVar (s_ "x")) (ENum (float_of_Z 6)))
+          (SCons (SAssign (EVar (s_ "x")) (EBin BPlus TNum TNum (EVar (s_ "x")) (ENum (float_of_Z 1))))
+          (SCons (SIf (xeq 1%Z) (tadd 10%Z)
+                      (CCons (xeq 2%Z) (tadd 100%Z) (CCons (xeq 3%Z) (tadd 1000%Z) CNil))
+                      (Else (tadd 1%Z))) SNil))) SNil)).
+
+Example C16_ex_elif_defined :
+  psfrag ex_elif = true /\ (ldepth ex_elif <= Gen.Opcodes.StackSize)%N /\
+  match exec_l 40 ex_elif (fun _ => None) with
+  | Some (env, false) => env (s_ "x") = Some (VNum (float_of_Z 6)) /\ env (s_ "t") = Some (VNum (float_of_Z 1113))
+  | _ => False
+  end /\
+  match compile ex_elif with
+  | COk st => match vm_run 2000 (program_of (bytecode_of st)) (vm_init (program_of (bytecode_of st))) with
+              | FHalted s => nth_error (globals s) 1 = Some (VNum (float_of_Z 1113))
+              | _ => False
+              end
+  | CErr _ => False
+  end.
+Proof. vm_compute. repeat split; try reflexivity. discriminate. Qed.
+
+(* x := 0; t := 0
+   while true: x = x + 1
+     if x == 2: t = t + 100 else if x == 4: break else t = t + 1 end
+     t = t + 10
+   end        -- x = 4, t = 1 + 10 + 100 + 10 + 1 + 10 = 132 *)
+Definition ex_break : slist :=
+  let xeq k := EBin BEq TNum TNum (EVar (s_ "x")) (ENum (float_of_Z k)) in
+  let tadd k := SAssign (EVar (s_ "t")) (EBin BPlus TNum TNum (EVar (s_ "t")) (ENum (float_of_Z k))) in
+  SCons (SDecl (s_ "x") (ENum (float_of_Z 0)))
+ (SCons (SDecl (s_ "t") (ENum (float_of_Z 0)))
+ (SCons (SWhile (EBool true)
+          (SCons (SAssign (EVar (s_ "x")) (EBin BPlus TNum TNum (EVar (s_ "x")) (ENum (float_of_Z 1))))
+          (SCons (SIf (xeq 2%Z) (SCons (tadd 100%Z) SNil)
+                      (CCons (xeq 4%Z) (SCons SBreak SNil) CNil)
+                      (Else (SCons (tadd 1%Z) SNil)))
+          (SCons (tadd 10%Z) SNil)))) SNil)).
+
+Example C16_ex_break_defined :
+  psfrag ex_break = true /\ (ldepth ex_break <= Gen.Opcodes.StackSize)%N /\
+  match exec_l 40 ex_break (fun _ => None) with
+  | Some (env, false) => env (s_ "x") = Some (VNum (float_of_Z 4)) /\ env (s_ "t") = Some (VNum (float_of_Z 132))
+  | _ => False
+  end /\
+  match compile ex_break with
+  | COk st => match vm_run 2000 (program_of (bytecode_of st)) (vm_init (program_of (bytecode_of st))) with
+              | FHalted s => nth_error (globals s) 1 = Some (VNum (float_of_Z 132))
+              | _ => False
+              end
+  | CErr _ => False
+  end.
+Proof. vm_compute. repeat split; try reflexivity. discriminate. Qed.
+
+(* a break outside a loop is outside the fragment *)
+Example C16_ex_break_outside : psfrag (SCons SBreak SNil) = false.
+Proof. reflexivity. Qed.
 
 Example C16_ex_ctl_fragment :
   pfrag2 ex_ctl = true /\
